@@ -91,7 +91,7 @@ func (s *SourceSplitter) Start(ckpt *snapshotpb.SourceCheckpoint) error {
 	}
 
 	// Include newly discovered shards for assignment
-	err := s.discoverShards(ctx, s.splitTracker.LastAssignedSplitID)
+	err := s.discoverShards(ctx, s.splitTracker.DiscoveryCursor())
 	if err != nil {
 		return fmt.Errorf("kinesis.SourceSplitter failed to discover shards: %w", err)
 	}
@@ -114,7 +114,7 @@ func (s *SourceSplitter) processShardAssignment(ctx context.Context) {
 			return
 		case <-s.shardDiscoveryTicker.C:
 			// periodically discover shards and assign them to source runners
-			err := s.discoverShards(s.ctx, s.splitTracker.LastAssignedSplitID)
+			err := s.discoverShards(s.ctx, s.splitTracker.DiscoveryCursor())
 			if err != nil {
 				s.errChan <- fmt.Errorf("kinesis.SourceSplitter failed to discover shards: %w", err)
 				return
